@@ -45,17 +45,24 @@ RULE = (
     "with Hugr.add_node / Hugr.add_order_link / core.track_hugr_side_effects recorded; case = one track_hugr_side_effects "
     "context: recorded add_order_link calls vs Lean `order` (Model/OrderEdges.lean) on the recorded node insertions, and vs "
     "the oracle (per region exactly one path Input -> side-effecting children by first effect -> Output; effects decided "
-    "independently of may_have_side_effect); non-trivial = at least 2 side-effecting nodes and a linked container"
+    "independently of may_have_side_effect); non-trivial = at least 2 side-effecting nodes and a linked container. End-to-end "
+    "phase (tie_hugr_exec, c03_hugr.py, generator biased to call-order shapes; corpus/c05/hugr_exec.json first): every helper "
+    "function reports its call with result(), the lowered HUGR of each typed program is interpreted under two schedules per "
+    "dataflow region (first / last ready node, so a missing order edge reorders the reports) and the sequence of reports and the "
+    "returned value must equal CPython's on the same source; case = (function, argument tuple, schedule)"
 )
 ASSUMPTIONS = list(base.ASSUMPTIONS) + [
     "side effects are represented by calls to external functions; result reports, panics, qubit allocation and measurement are "
     "calls as far as the CFG builder is concerned (the order-edge insertion of the HUGR lowering is tied separately: "
     "base.tie_order)",
+    "end-to-end phase: result() reports stand for side effects; a HUGR runtime may run the nodes of a dataflow region in any order "
+    "compatible with value and order edges (the interpreter of c03_hugr.py tries the two extreme ones)",
 ]
 UNMODELLED = list(base.UNMODELLED) + [
     "tuple and array construction, subscripts, panics in the CFG-builder tie (they occur in the typed programs of the "
     "order-edge phase tie_order, which ties core.track_hugr_side_effects to Model/OrderEdges.lean); the execution order "
-    "a HUGR runtime derives from order edges",
+    "a HUGR runtime derives from order edges (sampled only: the end-to-end phase executes lowered HUGRs under two schedules; "
+    "panics, qubit operations and ops outside its interpreter are not executed)",
 ]
 MANIFEST = {
     "level_text": "Lean theorems over the hand-written model of the expression/branch builders of cfg/builder.py (incl. "
@@ -71,7 +78,9 @@ MANIFEST = {
     "/repo on every run as in C03 (structure of the real CFG, interpretation of the real CFG against CPython call traces); typed "
     "programs are lowered by the real compiler, every node insertion and add_order_link call is recorded per definition and "
     "compared with the order-edge model and with an independent per-region path oracle; Call-count probes on the lowered Hugr "
-    "(one Call node per call expression, e.g. `a < idx() < b` -> 1).",
+    "(one Call node per call expression, e.g. `a < idx() < b` -> 1). End to end (sampling, no theorem): typed programs whose "
+    "helpers report every call are lowered by the real compiler and the lowered HUGR, interpreted under two schedules, must report "
+    "the same result sequence as CPython running the same source.",
     "level_note": "Trusted: Lean kernel + propext/Classical.choice/Quot.sound; the reading of a CFG (exec of the real block "
     "statements); correspondence is sampling. D9 (middle operand of a chained comparison evaluated twice; lifted "
     "sub-expressions hoisted before left siblings) is fixed in /repo (7c8aeda, f9e33c1); its witnesses are regression inputs "
@@ -105,6 +114,9 @@ def tie(ctx):
     # T-obj: core.track_hugr_side_effects on really lowered typed programs vs Model/OrderEdges.lean and vs the literal
     # reading of `one Input -> effects in program order -> Output path per region` (corpus/c05/order_edges.json + generator)
     base.tie_order(ctx)
+    # end to end: typed programs with reporting helpers through check + lowering, the lowered HUGR interpreted under two
+    # schedules vs CPython on the same source (corpus/c05/hugr_exec.json + generator biased to call-order shapes)
+    base.tie_hugr_exec(ctx, "C05")
 
 
 def search(ctx, why):
